@@ -17,6 +17,22 @@ def handle (j : Json) : Except String Json := do
     let ps ← getIntList j "ps"
     let ws ← getIntList j "ws"
     return jobj [("total", jint (progress (ps.zip ws)))]
+  | "check" =>
+    -- one CheckStatus from what it read: current stage, the two lists, progress per stage (0 = not read)
+    let scale ← getInt j "scale"
+    let cur ← getNat j "cur"
+    let transit ← getNatList j "transit"
+    let finished ← getNatList j "finished"
+    let ps ← getIntList j "ps"
+    let ws ← getIntList j "ws"
+    let total := checkTotal scale cur transit finished (readOf ps) ws
+    let disjoint := transit.all (fun k => !finished.contains k)
+    return jobj [("total", jint total), ("partition", jbool (disjoint && decide (finished.eraseDups.length = finished.length)))]
+  | "monitor" =>
+    let ws ← getIntList j "ws"
+    return match monitorWeights ws with
+      | some l => jobj [("kept", jbool true), ("weights", jarr (l.map jint))]
+      | none => jobj [("kept", jbool false), ("weights", jarr [])]
   | _ => throw s!"unknown op {op}"
 
 def main : IO Unit := serve handle
